@@ -39,7 +39,8 @@ PosFull(q, qt) ==
 
 (* empty answers (NOERROR) with the possible authority sections *)
 Auths(q) == {<<>>, <<SOA(ParentOf(q), 5, 1)>>, <<SOA(ParentOf(q), 1, 5)>>, <<SOA(q, 5, 300)>>,
-             <<SOA(RootName, 300, 5), SOA(ParentOf(q), 1, 300)>>, <<SOA(Other, 1, 1)>>}
+             (IF ParentOf(q) = RootName THEN <<SOA(RootName, 300, 5)>> ELSE <<SOA(RootName, 300, 5), SOA(ParentOf(q), 1, 300)>>),
+             <<SOA(Other, 1, 1)>>}
 NoDataSmall(q, qt) == {Msg("NOERROR", <<>>, <<SOA(ParentOf(q), 5, 1)>>)}
 NoDataFull(q, qt) ==
     {Msg("NOERROR", <<>>, a) : a \in Auths(q)}
